@@ -117,14 +117,32 @@ def main(seed, ncases, driver, out, mode="all"):
     failures = []; dist = {}; samples = []; evals = 0; distinct = 0; worst = {"direct": 0.0, "kpm": 0.0}
     for c in range(ncases):
         if skip(c): continue
-        rnd = case_rnd(seed, c); P = gen(rnd, mode == "nh", close=True); N = P["N"]; R, L = P["R"], P["L"]; herm = P["herm"]
+        rnd = case_rnd(seed, c); P = gen(rnd, mode == "nh", close=True)
+        # two strata that every run contains (they used to be met by chance only): a dense complex Hermitian H_0 under the KPM solver with a tight requested
+        # accuracy; a real H_0 under a complex perturbation in very small units with the direct solver
+        forced = {7: "dense-complex-kpm", 13: "real-h0-complex-perturbation-small-units"}.get(c % 20) if mode != "nh" else None
+        if forced == "dense-complex-kpm":
+            for _ in range(60):
+                if P["herm"] and P["cplx"] and P["structure"] == "generic" and P["pattern"] != "close-pair": break
+                P = gen(rnd, False, close=True)
+            else: forced = None
+            if forced: P["solver"] = "kpm"
+        if forced == "real-h0-complex-perturbation-small-units":
+            for _ in range(400):
+                if P["structure"] == "real H_0, complex perturbation" and P["pattern"] != "close-pair": break
+                P = gen(rnd, False, close=True)
+            else: forced = None
+            if forced: P["solver"] = "direct"
+        N = P["N"]; R, L = P["R"], P["L"]; herm = P["herm"]
         # carriers: sparse arrays, or the dense arrays themselves (then also: the caller's arrays must come back unchanged)
-        dense_in = rnd.random() < 0.3
+        dense_in = rnd.random() < 0.3 or forced == "dense-complex-kpm"
         conv = (lambda m: np.array(m if np.abs(np.asarray(m).imag).max() > 0 else np.asarray(m).real)) if dense_in else sparse.csr_array
         # other energy units: the whole Hamiltonian times a power of two (exact), `atol` in the same units; U does not change, H_tilde scales along
         # (the KPM solver reads its option `atol` twice — as the accuracy of the rescaled, dimensionless expansion and as the energy tolerance of the
         # explicit part —, so its problems stay in units where both readings are harmless)
         unit = 2.0 ** (rnd.choice([0, 0, 0, -23, -40, 20]) if P["solver"] == "direct" else rnd.choice([0, 0, -13, 20]))
+        if forced == "real-h0-complex-perturbation-small-units": unit = 2.0 ** -40
+        if forced == "dense-complex-kpm": unit = 1.0
         H = {(0,): conv(P["H0"] * unit), (1,): conv(P["H1"] * unit)}
         if P["H2"] is not None: H[(2,)] = conv(P["H2"] * unit)
         before = {n: (m.tobytes() if dense_in else (m.data.tobytes(), m.indices.tobytes(), m.indptr.tobytes())) for n, m in H.items()}
@@ -135,13 +153,14 @@ def main(seed, ncases, driver, out, mode="all"):
         vecsA = [basis(p) for p in P["parts"]]
         key = f"{P['structure']}: {'dense' if dense_in else 'sparse'} {P['solver']} hermitian={herm} complex={P['cplx']} explicit={len(P['parts'])} degeneracy={P['pattern']} fd={bool(P['fd'])}"
         dist[key] = dist.get(key, 0) + 1
+        if forced: dist["forced: " + forced] = dist.get("forced: " + forced, 0) + 1
         desc = {"case": c, "seed": seed, "N": N, "dA": P["dA"], "parts": P["parts"], "complex": P["cplx"], "hermitian": herm, "fd": list(P["fd"]),
                 "solver": P["solver"], "explicit_energies": [complex(P["ev"][a]).real for a in sum(P["parts"], [])]}
         if len(samples) < 3: samples.append(desc)
         kw = {}; tol = 1e-8; kind = "direct"
         if unit != 1.0: kw["atol"] = 1e-12 * unit; key += f" units=2^{int(np.log2(unit))}"; dist[key] = dist.get(key, 0) + 1
         if P["solver"] != "direct":
-            kind = "kpm"; acc = 1e-7; tol = 300 * acc
+            kind = "kpm"; acc = 1e-9 if forced == "dense-complex-kpm" else 1e-7; tol = 300 * acc
             kw.update(direct_solver=False, solver_options={"atol": acc})
             if P["solver"] == "kpm-aux":
                 naux = rnd.randint(1, max(1, len(rest) - 1)); kw["solver_options"]["auxiliary_vectors"] = R[:, rest[:naux]]
